@@ -7,6 +7,21 @@ ROOT = os.path.dirname(os.path.dirname(os.path.abspath(__file__)))
 ALL = [f'C{i:02d}' for i in range(1, 21)]
 
 CHECKS = {
+    'C01': dict(
+        technique='TLA+ spec FedRound.tla (exact rational arithmetic, clients in arbitrary order, accumulators vs. the '
+                  'order-free definition) model-checked by TLC; FedRoundOracle computes exact parameters for random '
+                  'exact-island instances whose batch streams come from the real batching code; real '
+                  'federated_averaging replayed under client orders and jit/debug/pmap backends; keys and non-rational '
+                  'optimizers as PureHistory facts judged by TLC',
+        text='TLC proves on small instances that, whatever the client order, each round equals the weighted-mean '
+             'definition, gives one diagnostics entry per client, leaves the parameters unchanged on an empty round and '
+             'never produces NaN, with six skeleton deviations reported; for random instances (sizes 0-6 not divisible '
+             'by the batch size, 1-3 rounds, SGD/momentum on client and server) TLC computes the exact rational result '
+             'and the real algorithm must reproduce it bit-exactly (dyadic) or to 1e-5 under several listing orders and '
+             'all three backends.',
+        note='Exact island: quadratic per-example loss, integer data, dyadic rates; Adam/Adagrad/Yogi/RMSProp only '
+             'relationally; zero-example clients with num_epochs=None excluded (no batch stream exists).',
+        design='5/C01'),
     'C02': dict(
         technique='TLA+ specs ForEachClient.tla (pmap blockify/mask/yield machine, jit donate machine with buffer table, free '
                   'client program) and BackendChoice.tla (thread-local selection, all interleavings) model-checked by TLC; '
